@@ -825,6 +825,11 @@ def rule_R14(toks, fired, which=None):
                     lets.append(f"let {pc[0].text}: usize = " + (f"{hi_v} - 1 - {iv};" if rev_ else f"{lo_v} + {iv};"))
                     continue
                 base, mutable, limit = _r14_leaf(e_)
+                # hint `v` (added for unit chordal_augment): the leaf is an OWNED Vec of Copy elements iterated by value
+                # (`zip(rows, nnzs)`): element i is X[i] itself, bound by value
+                byval = mutable is None and li < len(hints) and hints[li] == "v"
+                if byval:
+                    mutable = False
                 if mutable is None:
                     if li < len(hints) and hints[li] in "mi":
                         mutable = hints[li] == "m"
@@ -852,6 +857,8 @@ def rule_R14(toks, fired, which=None):
                 elem = f"{bt}[{iv}]" if bt is not None else f"{xb}[{lo_v} + {iv}]"
                 if len(pc) == 2 and pc[0].text == "&" and pc[1].kind == "ident":
                     lets.append(f"let {pc[1].text} = {elem};")
+                elif len(pc) == 1 and pc[0].kind == "ident" and byval:
+                    lets.append(f"let {pc[0].text} = {elem};")
                 elif len(pc) == 1 and pc[0].kind == "ident":
                     lets.append(f"let {pc[0].text} = &{'mut ' if mutable else ''}{elem};")
                 else:
@@ -2768,6 +2775,332 @@ RULES["iterpos"] = rule_iterpos
 RULE_ORDER[RULE_ORDER.index("R20"):RULE_ORDER.index("R20")] = ["strmatch", "extset", "setmin", "iterpos"]
 
 
+# ---- rules added for unit chordal_augment (additive) ----
+def _method_call_at(toks, i, name):
+    """toks[i] is the identifier `name` of a method call `.name(`: returns (dot, open paren, close paren) or None"""
+    t = toks[i]
+    if not (t.kind == "ident" and t.text == name and not t.syn):
+        return None
+    d = prev_code(toks, i - 1)
+    p = next_code(toks, i + 1)
+    if d < 0 or toks[d].text != "." or toks[p].text != "(":
+        return None
+    return d, p, match_close(toks, p)
+
+
+def _empty_call_before(toks, dot, name):
+    """the tokens before toks[dot] (a `.`) end in `.name()`: returns the index of that call's `.`, else None"""
+    q = prev_code(toks, dot - 1)
+    if q < 0 or toks[q].text != ")":
+        return None
+    qo = prev_code(toks, q - 1)
+    it = prev_code(toks, qo - 1)
+    d_it = prev_code(toks, it - 1)
+    if toks[qo].text == "(" and toks[it].kind == "ident" and toks[it].text == name and toks[d_it].text == ".":
+        return d_it
+    return None
+
+
+def rule_peekslice(toks, fired):
+    """peekslice:  X.iter().peekable()  ->  slice_peekable(&X)      (unit chordal_augment: the pattern iterators of the chordal code)
+    X a Vec / slice.  The unit declares `SlicePeek` with the ASSUMED documented behaviour of Peekable<slice::Iter>: `len()` = number
+    of elements not yet yielded (ExactSizeIterator), `peek()` = Some(&&X[pos]) without advancing / None at the end, `next()` =
+    Some(&X[pos]) and advance / None.  The calls on the iterator stay in the text as they are."""
+    i = 0
+    while i < len(toks):
+        mc = _method_call_at(toks, i, "peekable")
+        if mc is not None and next_code(toks, mc[1] + 1) == mc[2]:
+            d_it = _empty_call_before(toks, mc[0], "iter")
+            if d_it is not None:
+                a = _postfix_start(toks, d_it)
+                new = synth("slice_peekable(&") + toks[a:d_it] + synth(")")
+                toks = toks[:a] + new + toks[mc[2] + 1:]
+                fired["peekslice"] = fired.get("peekslice", 0) + 1
+                i = a + 1
+                continue
+        i += 1
+    return toks
+
+
+def rule_mapcollect(toks, fired):
+    """mapcollect:  X.iter().map(|PAT| E).collect()  ->  { let mut mc_outN = Vec::new(); for PAT in X.iter() { mc_outN.push(E); } mc_outN }
+    (definition of map + collect into a Vec: the mapped items in iteration order).  The closure receives the item of X.iter(), which
+    is what the `for` pattern receives (a `&v` pattern is then open to R5).  Fires only when `.map(` directly follows `.iter()` and
+    `.collect()` directly follows the map; E must not contain `return` / `?` (it does not in the covered uses; not checked further)."""
+    n = 0
+    i = 0
+    while i < len(toks):
+        mc = _method_call_at(toks, i, "map")
+        if mc is not None:
+            d_it = _empty_call_before(toks, mc[0], "iter")
+            d3 = next_code(toks, mc[2] + 1)
+            m3 = next_code(toks, d3 + 1)
+            p3 = next_code(toks, m3 + 1)
+            if (d_it is not None and toks[d3].text == "." and toks[m3].kind == "ident" and toks[m3].text == "collect"
+                    and toks[p3].text == "(" and next_code(toks, p3 + 1) == match_close(toks, p3)):
+                pat, body = _closure_parts(toks, mc[1], mc[2])
+                if any(x.kind == "ident" and x.text == "return" for x in body) or any(x.text == "?" for x in body):
+                    raise ExtractError("mapcollect: closure body with return / ?")
+                a = _postfix_start(toks, d_it)
+                n += 1
+                on = f"mc_out{n}"
+                new = (synth(f"{{ let mut {on} = Vec::new(); ") + [_for_tok()] + synth(" ") + pat + synth(" in ") + _strip_ws(toks[a:mc[0]])
+                       + synth(f" {{ {on}.push(") + body + synth(f"); }} {on} }}"))
+                toks = toks[:a] + new + toks[match_close(toks, p3) + 1:]
+                fired["mapcollect"] = fired.get("mapcollect", 0) + 1
+                i = a + 1
+                continue
+        i += 1
+    return toks
+
+
+def rule_posall(toks, fired):
+    """posall:  X.iter().position_all(|&x| C)  ->
+         { let mut pa_outN: Vec<usize> = Vec::new(); let mut pa_iN: usize = 0; for x in X.iter() { if C { pa_outN.push(pa_iN); } pa_iN += 1; } pa_outN }
+    the body of PositionAll::position_all (src/algebra/utils.rs: `self.enumerate().filter(|(_, item)| f(item)).map(|(index, _)| index)
+    .collect()`) written as the loop it defines: the indices of the items on which the predicate holds, in order.  The predicate gets
+    `&item`; its `&x` pattern binds x = item, which is the loop variable.  The synthesized `+= 1` is an overflow obligation."""
+    n = 0
+    i = 0
+    while i < len(toks):
+        mc = _method_call_at(toks, i, "position_all")
+        if mc is not None:
+            d_it = _empty_call_before(toks, mc[0], "iter")
+            if d_it is not None:
+                pat, body = _closure_parts(toks, mc[1], mc[2])
+                pc = [x for x in pat if x.kind not in ("ws", "comment")]
+                if not (len(pc) == 2 and pc[0].text == "&" and pc[1].kind == "ident"):
+                    raise ExtractError("posall: closure pattern is not `&ident`")
+                a = _postfix_start(toks, d_it)
+                n += 1
+                on, iv = f"pa_out{n}", f"pa_i{n}"
+                new = (synth(f"{{ let mut {on}: Vec<usize> = Vec::new(); let mut {iv}: usize = 0; ") + [_for_tok()] + synth(f" {pc[1].text} in ")
+                       + _strip_ws(toks[a:mc[0]]) + synth(" { if ") + body + synth(f" {{ {on}.push({iv}); }} {iv} += 1; }} {on} }}"))
+                toks = toks[:a] + new + toks[mc[2] + 1:]
+                fired["posall"] = fired.get("posall", 0) + 1
+                i = a + 1
+                continue
+        i += 1
+    return toks
+
+
+def rule_vecsort(toks, fired, names):
+    """vecsort:NAME|..  :  NAME.sort();  ->  usize_sort(&mut NAME);     for the listed local Vec<usize> variables (unit chordal_augment)
+    `<[usize]>::sort` has no Verus specification (a generic `T: Ord` one could not speak about the order); the unit declares
+    `usize_sort` with the ASSUMED documented contract of the std sort at type usize (same members, nondecreasing; for distinct
+    members strictly ascending).  (&mut NAME: the auto-ref of the method call.)"""
+    i = 0
+    while i < len(toks):
+        mc = _method_call_at(toks, i, "sort")
+        if mc is not None and next_code(toks, mc[1] + 1) == mc[2]:
+            r = prev_code(toks, mc[0] - 1)
+            pv = prev_code(toks, r - 1)
+            if toks[r].kind == "ident" and toks[r].text in names and (pv < 0 or toks[pv].text in (";", "{", "}")):
+                new = synth("usize_sort(&mut ") + [toks[r]] + synth(")")
+                toks = toks[:r] + new + toks[mc[2] + 1:]
+                fired["vecsort"] = fired.get("vecsort", 0) + 1
+                i = r + 1
+                continue
+        i += 1
+    return toks
+
+
+RULES["peekslice"] = rule_peekslice
+RULES["mapcollect"] = rule_mapcollect
+RULES["posall"] = rule_posall
+RULE_ORDER[RULE_ORDER.index("R20"):RULE_ORDER.index("R20")] = ["peekslice", "mapcollect", "posall"]
+
+
+def rule_R13e(toks, fired):
+    """R13e (unit psdcone):  EXPR.expect(MSG)  ->  EXPR.expect_or_panic(MSG)
+    The twin of R13 for `Result::expect`: the documented panic ("Eigval error", "SVD error") is modelled as divergence.  The unit
+    declares `expect_or_panic` with `ensures` only (self is Ok), so the call site gets no proof obligation and the code after it
+    is verified under "the engine reported success" - which is what reaching that code means in the real program."""
+    for i, t in enumerate(toks):
+        if t.kind == "ident" and t.text == "expect" and not t.syn:
+            pv = prev_code(toks, i - 1)
+            nx = next_code(toks, i + 1)
+            if pv >= 0 and toks[pv].text == "." and nx < len(toks) and toks[nx].text == "(":
+                t.text = "expect_or_panic"
+                fired["R13e"] = fired.get("R13e", 0) + 1
+    return toks
+
+
+RULES["R13e"] = rule_R13e
+RULE_ORDER[RULE_ORDER.index("R20"):RULE_ORDER.index("R20")] = ["R13e"]
+
+
+# ---- rules added for unit chordal_cgraph (additive) ----
+def rule_mapidx(toks, fired):
+    """mapidx:  M[&K]  ->  (*M.at(&K))      (unit chordal_cgraph: `adjacency_table[&c_1]`)
+    Indexing with a *reference* is only defined for maps (`impl Index<&Q> for HashMap`, documented: "Panics if the key is not
+    present"); a Vec / slice index is never a reference.  Verus cannot give a contract to a user `Index` impl (a trait method
+    implementation cannot declare `requires`), so the stand-in has the method `at(&self, k: &K) -> &V` with the panic condition as
+    precondition - `a[b]` in value position is sugar for `*a.index(b)`."""
+    i = 0
+    while i < len(toks):
+        t = toks[i]
+        if t.kind == "punct" and t.text == "[" and not t.syn:
+            pv = prev_code(toks, i - 1)
+            nx = next_code(toks, i + 1)
+            if pv >= 0 and toks[pv].kind == "ident" and nx < len(toks) and toks[nx].text == "&" \
+                    and toks[pv].text not in ("in", "return", "let", "mut", "if", "else", "match"):
+                ppv = prev_code(toks, pv - 1)
+                if not (ppv >= 0 and toks[ppv].text in (".", "::")):
+                    pe = match_close(toks, i)
+                    toks = toks[:pv] + synth("(*") + [toks[pv]] + synth(".at(") + toks[i + 1:pe] + synth("))") + toks[pe + 1:]
+                    fired["mapidx"] = fired.get("mapidx", 0) + 1
+                    i = pv + 4
+                    continue
+        i += 1
+    return toks
+
+
+def rule_valuesmut(toks, fired):
+    """valuesmut:  for PAT in M.values_mut() { BODY }   ->
+         let vm_keysN = M.key_list(); for vm_iN in 0..vm_keysN.len() { let PAT = M.get_mut(&vm_keysN[vm_iN]).unwrap(); BODY }
+    (unit chordal_cgraph: the last loop of update_strategy).  `HashMap::values_mut` visits every value exactly once, in arbitrary
+    order, as `&mut V`; BODY only sees the value, so it cannot change the key set.  The stand-in's `key_list()` is ASSUMED to return
+    every key exactly once (arbitrary order), `get_mut` is the documented lookup; the synthesized `unwrap()` is a proof obligation
+    (discharged from "the listed keys are keys").  Verus has no model of an iterator of `&mut`."""
+    n = 0
+    i = 0
+    while i < len(toks):
+        t = toks[i]
+        if t.kind == "ident" and t.text == "for" and not t.syn:
+            j = i + 1
+            while j < len(toks) and not (toks[j].kind == "ident" and toks[j].text == "in"):
+                if toks[j].kind == "punct" and toks[j].text == "{":
+                    break
+                j += 1
+            if j < len(toks) and toks[j].text == "in":
+                bo = _loop_body_open(toks, i)
+                ex = [k for k in range(j + 1, bo) if toks[k].kind not in ("ws", "comment")]
+                if (len(ex) == 5 and toks[ex[0]].kind == "ident" and toks[ex[1]].text == "." and toks[ex[2]].text == "values_mut"
+                        and toks[ex[3]].text == "(" and toks[ex[4]].text == ")"):
+                    n += 1
+                    m = toks[ex[0]].text
+                    pat = _strip_ws(toks[i + 1:j])
+                    kn, iv = f"vm_keys{n}", f"vm_i{n}"
+                    new = (synth(f"let {kn} = {m}.key_list(); ") + [toks[i]] + synth(f" {iv} in 0..{kn}.len() ") + [toks[bo]]
+                           + synth(" let ") + pat + synth(f" = {m}.get_mut(&{kn}[{iv}]).unwrap();"))
+                    toks = toks[:i] + new + toks[bo + 1:]
+                    fired["valuesmut"] = fired.get("valuesmut", 0) + 1
+                    i += len(new)
+                    continue
+        i += 1
+    return toks
+
+
+def rule_slicechk(toks, fired):
+    """slicechk:  X[A..B]  ->  X[A..range_end_or_panic(B, sc_lenN)]  with `let sc_lenN = X.len();` in front of the statement
+    (X a plain identifier; unit chordal_cgraph: `p[0..nnz]` in traverse).
+    Twin of R13 for range indexing: a range whose end exceeds the length panics ("range end index out of range"); the unit declares
+    `range_end_or_panic(e, len) -> e` with `ensures` only (e <= len), i.e. that panic is modelled as divergence and the code after it
+    is verified under "the slice was taken".  Used ONLY where the bound is listed as an OPEN obligation in the unit header."""
+    i = 0
+    while i < len(toks):
+        t = toks[i]
+        if t.kind == "punct" and t.text == "[" and not t.syn:
+            pv = prev_code(toks, i - 1)
+            if pv >= 0 and toks[pv].kind == "ident" and toks[pv].text not in ("in", "return", "let", "mut", "if", "else", "match"):
+                pe = match_close(toks, i)
+                d, cut = 0, None
+                for z in range(i + 1, pe):
+                    x = toks[z]
+                    if x.kind == "punct" and x.text in OPEN: d += 1
+                    elif x.kind == "punct" and x.text in CLOSE: d -= 1
+                    elif x.kind == "punct" and x.text == ".." and d == 0: cut = z
+                if cut is not None and _strip_ws(toks[i + 1:cut]) and _strip_ws(toks[cut + 1:pe]):
+                    nfired = fired.get("slicechk", 0) + 1
+                    ln = f"sc_len{nfired}"
+                    new = synth("range_end_or_panic(") + _strip_ws(toks[cut + 1:pe]) + synth(f", {ln})")
+                    a, _b = stmt_bounds(toks, i)
+                    pre = synth(f"let {ln} = {toks[pv].text}.len(); ")
+                    toks = toks[:a] + pre + toks[a:cut + 1] + new + toks[pe:]
+                    fired["slicechk"] = nfired
+                    i = cut + len(pre) + len(new)
+                    continue
+        i += 1
+    return toks
+
+
+RULES["mapidx"] = rule_mapidx
+RULES["valuesmut"] = rule_valuesmut
+RULES["slicechk"] = rule_slicechk
+RULE_ORDER[RULE_ORDER.index("R20"):RULE_ORDER.index("R20")] = ["mapidx", "valuesmut", "slicechk"]
+
+
+def rule_extfilter(toks, fired):
+    """extfilter:  T.extend(X.iter().filter(|&s| C));   ->   for s in X.iter() { if C { T.insert(*s); } }
+    (unit chordal_cgraph: `tmp.extend(snode[c_ind].iter().filter(|&s| !separators[c_ind].contains(s)))` in split_cliques.)
+    T an indexmap::IndexSet<usize>, X one too (its stand-in hands the members out as the slice `X.iter()`).  `impl Extend<&usize> for
+    IndexSet<usize>` inserts a copy of every yielded element in iteration order; `filter` yields the items on which the predicate
+    holds; the closure receives `&item` (item: &usize), so its `&s` pattern binds s = item, which is the loop variable.  Statement
+    position only; C must not contain `return` / `?`."""
+    i = 0
+    while i < len(toks):
+        mc = _method_call_at(toks, i, "extend")
+        if mc is not None:
+            dot, p, pe = mc
+            last = prev_code(toks, pe - 1)
+            semi = next_code(toks, pe + 1)
+            if toks[last].text == ")" and semi < len(toks) and toks[semi].text == ";":
+                # the argument must end in `.filter(..)` directly after `.iter()`
+                depth, k = 0, last
+                while k > p:
+                    if toks[k].kind == "punct" and toks[k].text in CLOSE: depth += 1
+                    if toks[k].kind == "punct" and toks[k].text in OPEN:
+                        depth -= 1
+                        if depth == 0: break
+                    k -= 1
+                fname = prev_code(toks, k - 1)
+                fdot = prev_code(toks, fname - 1)
+                if toks[fname].kind == "ident" and toks[fname].text == "filter" and toks[fdot].text == ".":
+                    d_it = _empty_call_before(toks, fdot, "iter")
+                    if d_it is not None:
+                        pat, body = _closure_parts(toks, k, last)
+                        pc = [x for x in pat if x.kind not in ("ws", "comment")]
+                        if not (len(pc) == 2 and pc[0].text == "&" and pc[1].kind == "ident"):
+                            raise ExtractError("extfilter: closure pattern is not `&ident`")
+                        if any(x.kind == "ident" and x.text == "return" for x in body) or any(x.text == "?" for x in body):
+                            raise ExtractError("extfilter: closure body with return / ?")
+                        a = _postfix_start(toks, dot)
+                        recv = _strip_ws(toks[a:dot])
+                        src = _strip_ws(toks[next_code(toks, p + 1):fdot])
+                        v = pc[1].text
+                        new = ([_for_tok()] + synth(f" {v} in ") + src + synth(" { if ") + body + synth(" { ") + recv + synth(f".insert(*{v}); }} }}"))
+                        toks = toks[:a] + new + toks[semi + 1:]
+                        fired["extfilter"] = fired.get("extfilter", 0) + 1
+                        i = a + 1
+                        continue
+        i += 1
+    return toks
+
+
+def rule_extid(toks, fired):
+    """extid:  V.extend(IDENT)  ->  V.extend_from_slice(IDENT)     (unit chordal_cgraph: `neighbors.extend(rows)` in find_neighbors)
+    for a Vec<T> V (T: Copy) and a local IDENT of type `&[T]`: `impl Extend<&T> for Vec<T>` appends a copy of every element in order,
+    which is `extend_from_slice` (specified by vstd); the generic `Extend::extend` has no Verus specification.  Fires only when the
+    argument is a single identifier (twin of rule extset)."""
+    i = 0
+    while i < len(toks):
+        mc = _method_call_at(toks, i, "extend")
+        if mc is not None:
+            dot, p, pe = mc
+            a1 = next_code(toks, p + 1)
+            if toks[a1].kind == "ident" and next_code(toks, a1 + 1) == pe:
+                toks[i].text = "extend_from_slice"
+                fired["extid"] = fired.get("extid", 0) + 1
+        i += 1
+    return toks
+
+
+RULES["extfilter"] = rule_extfilter
+RULES["extid"] = rule_extid
+RULE_ORDER[RULE_ORDER.index("R20"):RULE_ORDER.index("R20")] = ["extfilter", "extid"]
+
+
 def apply_rules(toks, rules, fired):
     for r in RULE_ORDER:
         if r in rules:
@@ -2803,6 +3136,8 @@ def apply_rules(toks, rules, fired):
             toks = rule_setiter(toks, fired, [b for b in r[8:].split("|") if b])
         elif r.startswith("fnptr:"):
             toks = rule_fnptr(toks, fired, [b for b in r[6:].split("|") if b])
+        elif r.startswith("vecsort:"):
+            toks = rule_vecsort(toks, fired, [b for b in r[8:].split("|") if b])
         elif r not in RULES:
             raise ExtractError(f"unknown rule {r}")
     return toks
